@@ -955,8 +955,7 @@ def run_C05(tier, rng, chk):
         ss = st + (st_heap if variant.startswith("h") else [])
         out = chk.run_stream(ss, prop="C05", variant=variant, san=san)
         res.append(fam("ASan+UBSan %s build: all block-B bit patterns, reset-then-corrected type-2 groups, error codes/thresholds up to 255, malformed strings, allocation failure" % variant,
-                       ss, out, variant=variant, san=san, crash_is_violation=True,
-                       owned_keys=["pi", "pty", "tp", "ta", "ms", "ecc", "country", "af", "ps", "rt0", "rt1", "ptyn", "cfg", "ret", "crash", "alive"], owns_events=True))
+                       ss, out, variant=variant, san=san, crash_is_violation=True, owned_keys=["crash", "alive"]))
     if tier == "thorough":
         # valgrind memcheck (uninitialised reads) on a subset, plain build
         harness = chk.ensure_harness("hu")
@@ -977,10 +976,98 @@ def run_C05(tier, rng, chk):
 
 
 # ---------------------------------------------------------------------------------------
+# C18: the lookup graphs themselves are in Gen.v; the obligations are kernel-evaluated facts.
+def parse_gen_tables(chk):
+    import os, re
+    g = open(os.path.join(chk.COQB, "Gen.v")).read()
+
+    def lists(name):
+        m = re.search(r"Definition %s : list \(list Z\) := \[(.*?)\]%%Z\." % name, g, re.S)
+        if not m:
+            return []
+        out = []
+        for item in re.findall(r"\[([^\]]*)\]", m.group(1)):
+            vals = [int(x) for x in item.split(";") if x.strip() != ""]
+            out.append(None if vals == [-1] else bytes(v & 255 for v in vals).decode("latin-1"))
+        return out
+    enum = [(e, int(v)) for e, v in re.findall(r'\("(RDSPARSER_COUNTRY_\w+)"%string, (\d+)%Z\)', g)]
+    tabs = {t: lists(t) for t in ("pty_rds_name", "pty_rbds_name", "pty_rds_short", "pty_rbds_short", "pty_rds_long", "pty_rbds_long",
+                                  "country_name", "country_iso")}
+    return enum, tabs
+
+
+def parse_ref_tables(chk):
+    import os, re
+    r = open(os.path.join(chk.VERIF, "coq", "Ref_Tables.v")).read()
+    country = {e: (n, i) for e, n, i in re.findall(r'\("(RDSPARSER_COUNTRY_\w+)", "([^"]*)", "([^"]*)"\)', r)}
+    pty = {}
+    for t in ("pty_rds_name", "pty_rbds_name", "pty_rds_short", "pty_rbds_short", "pty_rds_long", "pty_rbds_long"):
+        m = re.search(r"Definition ref_%s : list string := \[(.*?)\]\." % t, r, re.S)
+        pty[t] = re.findall(r'"([^"]*)"', m.group(1))
+    return country, pty
+
+
+def run_C18(tier, rng, chk):
+    import os, json
+    enum, tabs = parse_gen_tables(chk)
+    refc, refp = parse_ref_tables(chk)
+    viol = []
+    n_eval = 0
+
+    def bad(call, expected, observed):
+        viol.append({"kind": "lookup", "found_input": True, "family": "lookup graphs", "detail": {"call": call, "expected": expected, "observed": observed},
+                     "input": call, "expected": expected, "observed": observed})
+    errs = {}
+    try:
+        errs = json.load(open(os.path.join(chk.BUILD, "gen", "section_errors.json")))
+    except OSError:
+        pass
+    for sec, e in errs.items():
+        bad("%s lookup, dumper call '%s' aborted" % (sec, e.get("call")), "a non-NULL constant string", "abort: " + e.get("stderr", "")[-600:])
+    for t, ref in refp.items():
+        tbl = tabs.get(t, [])
+        rbds = "true" if "rbds" in t else "false"
+        fn = "rdsparser_pty_lookup_" + t.split("_")[-1]
+        for i in range(min(256, len(tbl))):
+            n_eval += 1
+            arg = i if i < 128 else i - 256
+            exp = ref[arg] if 0 <= arg < 32 else "Unknown"
+            if tbl[i] != exp:
+                bad("%s(%d, %s)" % (fn, arg, rbds), exp, tbl[i])
+            if 0 <= arg < 32 and tbl[i] is not None:
+                lim = 8 if "short" in t else (16 if "long" in t else 1000)
+                if len(tbl[i]) > lim:
+                    bad("%s(%d, %s)" % (fn, arg, rbds), "at most %d characters" % lim, tbl[i])
+    names, isos = tabs.get("country_name", []), tabs.get("country_iso", [])
+    val2e = {v: e for e, v in enum}
+    for v in range(min(256, len(names), len(isos))):
+        n_eval += 2
+        if 1 <= v <= 220:
+            e = val2e.get(v)
+            exp = refc.get(e)
+            if exp is None:
+                bad("enumerator with value %d" % v, "an enumerator of the reference table", str(e))
+                continue
+            if names[v] != exp[0]:
+                bad("rdsparser_country_lookup_name(%s /* %d */)" % (e, v), exp[0], names[v])
+            if isos[v] != exp[1]:
+                bad("rdsparser_country_lookup_iso(%s /* %d */)" % (e, v), exp[1], isos[v])
+        else:
+            if names[v] != "Unknown":
+                bad("rdsparser_country_lookup_name(%d)" % v, "Unknown", names[v])
+            if isos[v] != "??":
+                bad("rdsparser_country_lookup_iso(%d)" % v, "??", isos[v])
+    sample = [{"call": "rdsparser_country_lookup_iso(%s)" % e, "result": isos[v] if v < len(isos) else None} for e, v in enum[1:4]]
+    return [fam("complete lookup graphs (256 arguments x 6 PTY tables, 256 x 2 country tables), dumped from the compiled library under ASan+UBSan",
+                [], None, extra_violations=viol[:8], counts={"evaluations": n_eval, "observed": n_eval},
+                extra_cov={"exhaustive": True, "samples": sample})]
+
+
+# ---------------------------------------------------------------------------------------
 FAMILIES = {
     "C01": run_C01, "C02": run_C02, "C03": run_C03, "C04": run_C04, "C05": run_C05, "C06": run_C06, "C07": run_C07,
     "C08": run_C08, "C09": run_C09, "C10": run_C10, "C11": run_C11, "C12": run_C12, "C13": run_C13,
-    "C14": run_C14, "C15": run_C15, "C16": run_C16, "C17": run_C17,
+    "C14": run_C14, "C15": run_C15, "C16": run_C16, "C17": run_C17, "C18": run_C18,
 }
 
 
